@@ -95,6 +95,16 @@ theorem cmd_exec (cap : Cap) (saveOut : Option Nat) (rc : Int) (out err : List C
     cases hcl : classifyCmd rc <;> cases saveOut <;> simp_all
   · intro hn; simp only [cmdExec, hn]; cases classifyCmd rc <;> simp
 
+/-- F-C17c (fixed in /repo, c208dcd): the captured text does not depend on the `buffering` value; the pinned
+    code decoded each read on its own and turned `a é b` (61 C3 A9 62) read two bytes at a time into
+    `a U+FFFD U+FFFD b` -/
+theorem pinned_buffering_counterexample :
+    (∀ n m bytes, cmdDecode n bytes = cmdDecode m bytes) ∧
+    cmdDecode 2 [0x61, 0xC3, 0xA9, 0x62] = [0x61, 0xE9, 0x62] ∧
+    cmdDecodePinned 2 [0x61, 0xC3, 0xA9, 0x62] = [0x61, 65533, 65533, 0x62] ∧
+    cmdDecodePinned 4 [0x61, 0xC3, 0xA9, 0x62] = [0x61, 0xE9, 0x62] := by
+  refine ⟨fun _ _ _ => rfl, ?_, ?_, ?_⟩ <;> decide
+
 /-! ## `Task.execute` -/
 
 /-- A task stops at its first unsuccessful action (`ran` counts the `execute` calls: the successful prefix plus
